@@ -262,6 +262,17 @@ class Holder:
         return 1
 
 
+class HolderB(Holder):
+    """a receiver (self) with journaling truthiness: looking a method up through it must not ask whether it is true"""
+    def __bool__(self):
+        note("HolderB.__bool__")
+        return False
+
+    def __len__(self):
+        note("HolderB.__len__")
+        return 0
+
+
 def named_like_a_global(x):      # a global named like this function is looked at by get_func
     return x
 
@@ -354,6 +365,8 @@ def workload(vals, out):
         g = gen_of(v)
         out.append(("gen", i, next(g) is v))
         list(g)          # always exhausted: no frame may stay behind in the tracer (closing at a yield is C02's finding)
+    hb = HolderB()
+    out.append(("methB", hb.meth(vals[0]) is vals[0], hb.prop))
     out.append(("prop", h.prop))
     out.append(("named", named_like_a_global(vals[0]) is vals[0]))
     out.append(("closure", outer_with_closure(vals[1]) is vals[1]))
